@@ -27,19 +27,28 @@ func indexedSelect(
 		return err
 	}
 
-	return ind.Scan(func(r sdb.Record) bool {
+	var cbErr error
+	if err := ind.Scan(func(r sdb.Record) bool {
 		rowid, _, err := sdb.ChompRowid(r)
 		if err != nil {
-			return false
+			cbErr = err
+			return true
 		}
 		row, err := tab.Rowid(rowid)
-		if err != nil || row == nil {
+		if err == nil && row == nil {
 			// row should never be nil
-			return false
+			err = sdb.ErrCorrupted
+		}
+		if err != nil {
+			cbErr = err
+			return true
 		}
 		cb(toRow(rowid, ci, row))
 		return false
-	})
+	}); err != nil {
+		return err
+	}
+	return cbErr
 }
 
 // index (==) search on a rowid table
@@ -66,21 +75,30 @@ func indexedSelectEq(
 		return err
 	}
 
-	return ind.ScanEq(
+	var cbErr error
+	if err := ind.ScanEq(
 		key,
 		func(r sdb.Record) bool {
 			rowid, _, err := sdb.ChompRowid(r)
 			if err != nil {
-				return false
+				cbErr = err
+				return true
 			}
 			row, err := tab.Rowid(rowid)
-			if err != nil || row == nil {
+			if err == nil && row == nil {
 				// row should never be nil
-				return false
+				err = sdb.ErrCorrupted
+			}
+			if err != nil {
+				cbErr = err
+				return true
 			}
 			cb(toRow(rowid, ci, row))
 			return false
-		})
+		}); err != nil {
+		return err
+	}
+	return cbErr
 }
 
 // index scan on a WITHOUT ROWID table
@@ -114,7 +132,8 @@ func indexedSelectNonRowid(
 		return err
 	}
 
-	return ind.Scan(func(r sdb.Record) bool {
+	var cbErr error
+	if err := ind.Scan(func(r sdb.Record) bool {
 		setKey(r, cols, pk)
 
 		var found sdb.Record
@@ -122,13 +141,20 @@ func indexedSelectNonRowid(
 			found = row
 			return true
 		})
-		if err != nil || found == nil {
+		if err == nil && found == nil {
 			// found should never be nil
-			return false
+			err = sdb.ErrCorrupted
+		}
+		if err != nil {
+			cbErr = err
+			return true
 		}
 		cb(toRow(0, ci, found))
 		return false
-	})
+	}); err != nil {
+		return err
+	}
+	return cbErr
 }
 
 // index (==) search on a WITHOUT ROWID table
@@ -163,21 +189,29 @@ func indexedSelectEqNonRowid(
 		return err
 	}
 
-	return ind.ScanEq(
+	var cbErr error
+	if err := ind.ScanEq(
 		key,
 		func(r sdb.Record) bool {
 			setKey(r, cols, pk)
 
 			var found sdb.Record
 			err := tab.ScanEq(pk, func(row sdb.Record) bool { found = row; return true })
-			if err != nil || found == nil {
+			if err == nil && found == nil {
 				// found should never be nil
-				return false
+				err = sdb.ErrCorrupted
+			}
+			if err != nil {
+				cbErr = err
+				return true
 			}
 			cb(toRow(0, ci, found))
 			return false
 		},
-	)
+	); err != nil {
+		return err
+	}
+	return cbErr
 }
 
 // make a key from columns from the record
